@@ -148,6 +148,32 @@ def cycle(F, rep):
     ins = [c for c in calls if c.get("k") == "MethodCall" and c["m"] == "insert"]
     rec = [c for c in calls if callee(c) == DEP + "order::recurse"]
     rep.ob("CYCLE", "order::recurse|recursion", len(rec) >= 1, "recurse() visits dependencies recursively", fn["sp"])
+    # ... every one of them: the loop over the statement's dependencies recurses unconditionally - a dependency that is skipped
+    # (`if dep == global { continue }`, a filter on the iterator) is a cycle that is never seen: `total :: total + 1`
+    from flow import uncond_nodes
+    followed = None
+    for lp in nodes(body, "ForLoop"):
+        inner_rec = [c for c in nodes(lp["body"]) if c.get("k") == "Call" and callee(c) == DEP + "order::recurse"]
+        if not inner_rec:
+            continue
+        chain = []
+        cur = peel(lp["iter"])
+        while cur.get("k") == "MethodCall":
+            chain.append(cur["m"])
+            cur = peel(cur["recv"])
+        plain = not (set(chain) - {"iter", "into_iter", "cloned", "copied"})
+        uncond = any(x is inner_rec[0] for x in uncond_nodes(lp["body"]))
+        exits_before = False
+        for x in uncond_nodes(lp["body"]):
+            if x is inner_rec[0]:
+                break
+        early = [x for x in nodes(lp["body"]) if x.get("k") in ("Continue", "Break")]
+        followed = plain and uncond and not early
+    rep.ob("CYCLE", "order::recurse|every-dependency-followed", bool(followed),
+           "the loop over a statement's dependencies recurses into each of them, unconditionally" if followed else
+           "the loop over a statement's dependencies skips some of them (a `continue` / `break`, a condition around the recursive call "
+           "or a filter on the iterator): a cycle through a skipped dependency - a global whose initialiser reads itself - is accepted",
+           fn["sp"])
     rep.floor("CYCLE", "State::Inserting arms", n, 1)
 
     comp = F.fn("sylt_compiler::Compiler::compile")
